@@ -1,0 +1,94 @@
+//go:build verif
+
+// Copyright © 2021-present simon@qchen.fun All rights reserved.
+// Distributed under the terms and conditions of the BSD License.
+// See accompanying files LICENSE.
+
+package treemap
+
+import "fmt"
+
+// VerifWalk visits the tree in pre-order: `open` for every node (with its colour) before its
+// children, `leaf` for every nil link, `close` after both children of a node.
+// Read-only probe for the verification harness.
+func (m *Map) VerifWalk(open func(red bool, key KeyType, value interface{}), leaf func(), close func()) {
+	var walk func(e *Entry)
+	walk = func(e *Entry) {
+		if e == nil {
+			leaf()
+			return
+		}
+		open(e.color == RED, e.key, e.value)
+		walk(e.left)
+		walk(e.right)
+		close()
+	}
+	walk(m.root)
+}
+
+// VerifCheck reports the first violated structural invariant of the red-black tree
+// ("" when all hold): black root without parent, consistent parent links, keys in
+// strictly increasing order, no red node with a red child, equal black heights,
+// size field equal to the number of nodes.
+func (m *Map) VerifCheck() string {
+	if m.root == nil {
+		if m.size != 0 {
+			return fmt.Sprintf("size: empty tree but size field is %d", m.size)
+		}
+		return ""
+	}
+	if m.root.parent != nil {
+		return "parent: root has a parent"
+	}
+	if m.root.color != BLACK {
+		return "colour: root is red"
+	}
+	var problem string
+	var count int
+	var prev *Entry
+	var walk func(e *Entry) int
+	walk = func(e *Entry) int {
+		if e == nil || problem != "" {
+			return 1
+		}
+		count++
+		if e.left != nil && e.left.parent != e {
+			problem = fmt.Sprintf("parent: left child of %v does not point back", e.key)
+			return 0
+		}
+		if e.right != nil && e.right.parent != e {
+			problem = fmt.Sprintf("parent: right child of %v does not point back", e.key)
+			return 0
+		}
+		if e.color == RED && (colorOf(e.left) == RED || colorOf(e.right) == RED) {
+			problem = fmt.Sprintf("colour: red node %v has a red child", e.key)
+			return 0
+		}
+		var lh = walk(e.left)
+		if problem != "" {
+			return 0
+		}
+		if prev != nil && prev.key.CompareTo(e.key) >= 0 {
+			problem = fmt.Sprintf("order: %v is not below %v", prev.key, e.key)
+			return 0
+		}
+		prev = e
+		var rh = walk(e.right)
+		if problem != "" {
+			return 0
+		}
+		if lh != rh {
+			problem = fmt.Sprintf("black-height: %d left and %d right of %v", lh, rh, e.key)
+			return 0
+		}
+		if e.color == BLACK {
+			return lh + 1
+		}
+		return lh
+	}
+	walk(m.root)
+	if problem == "" && count != m.size {
+		problem = fmt.Sprintf("size: %d nodes but size field is %d", count, m.size)
+	}
+	return problem
+}
